@@ -89,6 +89,19 @@ add("C14", "E1",
     "Differential oracle only; the reference for the cycles themselves is C05.",
     "DESIGN.md §4 C14")
 
+add("C06", "E1",
+    "bounded-exhaustive enumeration of store/bump/load sequences vs. symbolic address tracker",
+    "store x [0..1 (thorough: 2) pointer bumps] x load (x second store) over every addressing shape "
+    "(base, base+disp, base+index*scale, AArch64 pre-/post-index), displacement pairs, bumps by "
+    "add/sub immediate, inc/dec, register copy (incl. copy chains and copy-with-offset), pre-/post-"
+    "indexed accesses in between, read-modify-write stores and one untracked change, on shipped "
+    "models with the shipped ISA databases (quick: zen1, tx2; thorough: all). Every instruction "
+    "pair is classified required / forbidden / unspecified by a reference tracker and compared with "
+    "the edges and weights of the real graph.",
+    "Trusted: mc/ref/dg.py tracker. Untracked register changes are unspecified (counted). D20 "
+    "(pre/post-indexed store whose base is overwritten before the load) is a listed known finding.",
+    "DESIGN.md §4 C06")
+
 NOT_YET = {}
 
 def main():
